@@ -235,6 +235,12 @@ def rule_rt1(prog, G):
             # report against the best candidate
             best = min(nts, key=lambda N: len(results[N][1]))
             for (name, n, where, vals) in results[best][1][:6]:
+                if vals and any('opaque' in repr(v) for v in vals):
+                    # a callback whose result was not understood
+                    raise Inconclusive(
+                        'R-RT-1', 'derivations of the printed form of %s.%s '
+                        'go through a callback that is not understood: %s' %
+                        (lang, name, sorted(map(repr, vals))[:2]), '')
                 f = [t[3] for t in tm if t[0] == name][0]
                 pieces = [t[2] for t in tm if t[0] == name and t[1] == n][0]
                 r.fail(Finding(
